@@ -79,11 +79,13 @@ def make_config(name, log=None):
         "Exact(noopt)": lambda: ExactAlgorithm(optimize=False),
         "Exact(opt,nocplex)": lambda: ExactAlgorithm(optimize=True),
         "Exact(noopt,nocplex)": lambda: ExactAlgorithm(optimize=False),
-        "ParCons": lambda: ParCons(),
-        "ParCons(nocplex)": lambda: ParCons(),
-        "ParCons(1,BioConsert)": lambda: ParCons(auxiliary_algorithm=BioConsert(), bound_for_exact=1),
-        "ParCons(1,Copeland)": lambda: ParCons(auxiliary_algorithm=CopelandMethod(), bound_for_exact=1),
-        "ParCons(2,Borda,nocplex)": lambda: ParCons(auxiliary_algorithm=BordaCount(), bound_for_exact=2),
+        "ParCons": lambda: ParCons(auxiliary_algorithm=rec(BioConsert())),
+        "ParCons(nocplex)": lambda: ParCons(auxiliary_algorithm=rec(BioConsert())),
+        "ParCons(1,BioConsert)": lambda: ParCons(auxiliary_algorithm=rec(BioConsert()), bound_for_exact=1),
+        "ParCons(1,Copeland)": lambda: ParCons(auxiliary_algorithm=rec(CopelandMethod()), bound_for_exact=1),
+        "ParCons(2,Copeland)": lambda: ParCons(auxiliary_algorithm=rec(CopelandMethod()), bound_for_exact=2),
+        "ParCons(3,Copeland)": lambda: ParCons(auxiliary_algorithm=rec(CopelandMethod()), bound_for_exact=3),
+        "ParCons(2,Borda,nocplex)": lambda: ParCons(auxiliary_algorithm=rec(BordaCount()), bound_for_exact=2),
     }
     return table[name](), cplex
 
@@ -195,6 +197,8 @@ def nice_default():
 
 def nice_model(ctx, bad, B, T):
     """model of pc /\\ bad, preferring penalties that are multiples of 1/4 below 16 (exact in float64)"""
+    if bad is None:
+        return None
     ks = [z3.Int(f"_k{i}") for i in range(12)]
     cons = [z3.And(k >= 0, k <= 64, v * 4 == z3.ToReal(k)) for k, v in zip(ks, B + T)]
     m = ctx.feasible(z3.And(bad, *cons), "replay-model", soft_timeout_ms=3000)
@@ -208,8 +212,8 @@ def prove(o, phi, what, cls, out, extra=None):
     mdl = o.ctx.prove(phi)
     if mdl is None:
         return True
-    if phi is not False and phi is not True:
-        m2 = nice_model(o.ctx, z3.Not(phi), o.B, o.T)
+    if phi is not True:
+        m2 = nice_model(o.ctx, z3.Not(phi) if phi is not False else z3.BoolVal(True), o.B, o.T)
         mdl = m2 or mdl
     out.append(payload(o, mdl, what, cls, extra))
     return False
@@ -377,6 +381,9 @@ def weak_orders_present(o):
 def chk_optimal(o, out, cls="optimal"):
     if o.exc is not None or o.rankings is None:
         return
+    if len(o.present) > 5:
+        STATS.notes["optimality oracle skipped: more than 5 elements (outside the bound of the all-rankings oracle)"] += 1
+        return
     ws = weak_orders_present(o)
     wt = [score_term(o, w) for w in ws]
     for lv in o.rankings:
@@ -515,15 +522,22 @@ def replay(p):
 
 
 # ------------------------------------------------------------------ work item
+FAMILIES = {
+    # two-parameter sub-family of the valid schemes (used for the larger strata, where 12 free penalties give too many paths)
+    "pq": lambda B, T: [B[1] == 1, B[2] == T[0], B[3] == 0, B[4] == 1, T[3] == T[0], T[5] == 0],
+}
+
+
 def run_item(args):
-    """args: (cfg, lvs, names, flag, check names) -> list of payloads"""
-    cfg, lvs, names, flag, checks = args
+    """args: (cfg, lvs, names, flag, check names[, scheme family]) -> list of payloads"""
+    cfg, lvs, names, flag, checks = args[:5]
+    family = args[5] if len(args) > 5 else None
     install()
     out = []
     ds = shapes.build(lvs, names)
     B, T = fork.scheme_vars()
     sc = fork.make_scheme(B, T)
-    ex = fork.Explorer(fork.valid_scheme(B, T), max_paths=int(2e5))
+    ex = fork.Explorer(fork.valid_scheme(B, T) + (FAMILIES[family](B, T) if family else []), max_paths=int(2e5))
     table = {"accepts": chk_accepts, "wellformed": chk_wellformed, "reported": chk_reported, "localopt": chk_localopt,
              "starts": chk_starts, "optimal": chk_optimal, "flag": chk_flag_truthful}
 
@@ -590,7 +604,32 @@ def comp3plus1():
     return out
 
 
-STRATA = {"cycles3": cycles3, "sparse4": sparse4, "comp3plus1": comp3plus1}
+def two_cycles6():
+    """n=6, m=3: a Condorcet cycle on {0,1,2} unanimously before a Condorcet cycle on {3,4,5} (two components that cannot be
+    all tied), plus variants with one tie / the groups swapped"""
+    c = ((0, 1, 2), (1, 2, 0), (2, 0, 1))
+    out = []
+    out.append(tuple(a + tuple(x + 3 for x in b) for a, b in zip(c, c)))
+    out.append(tuple(a + tuple(x + 3 for x in b) for a, b in zip(c, (c[1], c[2], c[0]))))
+    out.append(tuple(tuple(x + 3 for x in a) + b for a, b in zip(c, c)))
+    out.append(tuple(a + tuple(x + 3 for x in b) for a, b in zip(c, ((0, 1, 1), (1, 2, 0), (2, 0, 1)))))
+    return out
+
+
+def cycles43():
+    """n=7, m=3: a 4-cycle and a 3-cycle, one unanimously before the other (components of different sizes, so that an
+    exact bound of 3 delegates one and solves the other exactly)"""
+    a = ((0, 1, 2, 3), (3, 0, 1, 2), (2, 3, 0, 1))     # levels of elements 0..3 in the three rankings
+    b = ((0, 1, 2), (2, 0, 1), (1, 2, 0))
+    out = []
+    out.append(tuple(x + tuple(v + 4 for v in y) for x, y in zip(a, b)))          # 4-cycle first
+    out.append(tuple(tuple(v + 3 for v in x) + y for x, y in zip(a, b)))          # 3-cycle first
+    return out
+
+
+STRATA = {"cycles3": cycles3, "sparse4": sparse4, "comp3plus1": comp3plus1, "two_cycles6": two_cycles6, "cycles43": cycles43}
+NAMINGS.update({7: [[0, 1, 2, 3, 4, 5, 6], ["g", "b", "c", "a", "e", "d", "f"]]})
+NAMINGS.update({6: [[1, 2, 3, 4, 5, 6], ["f", "b", "c", "a", "e", "d"]]})
 
 
 def make_items(run, configs, checks, flags=(True, False), light=None, heavy=None, strata=(), strata_heavy=()):
@@ -613,14 +652,15 @@ def make_items(run, configs, checks, flags=(True, False), light=None, heavy=None
         if isinstance(st_list, dict):
             st_list = st_list.get(cfg, st_list.get("*", []))
         for st in st_list:
-            name, k = (st, None) if isinstance(st, str) else st
+            name, k = (st, None) if isinstance(st, str) else st[:2]
+            fam = st[2] if (not isinstance(st, str) and len(st) > 2) else None
             pool = STRATA[name]()
             chosen = pool if (k is None or k >= len(pool)) else rnd.sample(pool, k)
-            desc.setdefault(cfg, []).append({"stratum": name, "datasets": len(chosen), "of": len(pool)})
+            desc.setdefault(cfg, []).append({"stratum": name, "datasets": len(chosen), "of": len(pool), "scheme family": fam or "all valid"})
             for i, lvs in enumerate(chosen):
                 n = len(lvs[0])
                 for fl in flags:
-                    items.append((cfg, lvs, NAMINGS[n][i % len(NAMINGS[n])], fl, checks))
+                    items.append((cfg, lvs, NAMINGS[n][i % len(NAMINGS[n])], fl, checks) + ((fam,) if fam else ()))
     run.bounds["sweep (per configuration: shapes n, m; datasets explored / all)"] = desc
     run.bounds["scheme"] = "12 symbolic reals under the validity constraints, on every path"
     return items
